@@ -16,7 +16,8 @@ Proof.
   - destruct a; [reflexivity|discriminate].
   - cbn [Nat.add chunks app]. 
     rewrite firstn_app, skipn_app.
-    replace (64 - length a)%nat with 0%nat by lia. cbn [firstn skipn]. rewrite app_nil_r.
+    replace (64 - length a)%nat with 0%nat by lia.
+    change (firstn 0 b) with (@nil N). change (skipn 0 b) with b. rewrite app_nil_r.
     f_equal. apply IH. rewrite skipn_length. lia.
 Qed.
 
@@ -25,7 +26,7 @@ Proof.
   induction k as [|k IH]; intros l; [reflexivity|]. cbn [chunks].
   rewrite firstn_firstn. replace (Nat.min 64 (64 * S k)) with 64%nat by lia. f_equal.
   replace (64 * S k)%nat with (64 + 64 * k)%nat by lia.
-  rewrite <- IH. f_equal.
+  rewrite <- (IH (skipn 64 l)). f_equal.
   rewrite skipn_firstn_comm. f_equal. lia.
 Qed.
 
@@ -33,7 +34,8 @@ Lemma chunks_short k : forall a b, (64 * k <= length a)%nat -> chunks k (a ++ b)
 Proof.
   induction k as [|k IH]; intros a b H; [reflexivity|]. cbn [chunks].
   rewrite firstn_app, skipn_app.
-  replace (64 - length a)%nat with 0%nat by lia. cbn [firstn skipn]. rewrite app_nil_r. f_equal.
+  replace (64 - length a)%nat with 0%nat by lia.
+  change (firstn 0 b) with (@nil N). change (skipn 0 b) with b. rewrite app_nil_r. f_equal.
   apply IH. rewrite skipn_length. lia.
 Qed.
 
@@ -57,7 +59,13 @@ Proof. intros H. unfold blocks. replace (length b / 64)%nat with 0%nat by lia. r
 Lemma blocks_residue a r : (length r < 64)%nat -> (exists k, length a = (64 * k)%nat) ->
   blocks (a ++ r) = blocks a.
 Proof.
-  intros Hr [k Hk]. rewrite (blocks_app a r k Hk), blocks_small by exact Hr. apply app_nil_r.
+  intros Hr [k Hk]. rewrite (blocks_app a r k Hk), (blocks_small r) by exact Hr. apply app_nil_r.
+Qed.
+
+Lemma skipn_add (A : Type) y : forall x (l : list A), skipn x (skipn y l) = skipn (y + x) l.
+Proof.
+  induction y as [|y IH]; intros x l; [reflexivity|].
+  destruct l as [|a l]; [rewrite !skipn_nil; reflexivity|]. cbn [skipn Nat.add]. apply IH.
 Qed.
 
 Lemma firstn_repeat (x : N) n k : (k <= n)%nat -> firstn k (repeat x n) = repeat x k.
@@ -114,7 +122,7 @@ Section MD.
         assert (length src / 64 = S ((length src - 64) / 64))%nat as Hq by lia.
         unfold blocks at 2. rewrite Hq. cbn [chunks fold_left].
         unfold blocks. rewrite skipn_length. f_equal.
-        rewrite skipn_skipn. f_equal. lia.
+        rewrite skipn_add. f_equal. lia.
       + rewrite blocks_small by lia.
         replace (length src / 64)%nat with 0%nat by lia. reflexivity.
   Qed.
